@@ -1350,6 +1350,7 @@ func run(c *core.Ctx) {
 			return false
 		}
 		c.Add("base_trees", 1)
+		c.Case(func() string { return "C19 base tree " + gens.Show(a) })
 		ps := perturbations(a, keys)
 		fps := subFingerprints(a)
 		// identity pair: nothing differs, ignores must not invent anything
